@@ -3,6 +3,7 @@ module verif/sim
 go 1.26
 
 require (
+	github.com/0xPolygon/cdk-contracts-tooling v0.0.4
 	github.com/agglayer/aggkit v0.0.0
 	github.com/ethereum/go-ethereum v1.15.5
 	github.com/mattn/go-sqlite3 v1.14.28
@@ -10,7 +11,6 @@ require (
 )
 
 require (
-	github.com/0xPolygon/cdk-contracts-tooling v0.0.4 // indirect
 	github.com/0xPolygon/cdk-rpc v0.0.0-20250213125803-179882ad6229 // indirect
 	github.com/bahlo/generic-list-go v0.2.0 // indirect
 	github.com/bits-and-blooms/bitset v1.20.0 // indirect
